@@ -156,4 +156,41 @@ def wf (s : Start) : Bool :=
   | none => false
   | some h => noGhost h
 
+/-- the header after the history -/
+def finalHeader (s : Start) (ops : List Op) : Option Header :=
+  (startHeader s).map fun h => (modelSteps h ops).2
+
+/-- hypothesis of the wire part of `c05_pred_model`: the header after the history is in the domain
+    of C01's round trip theorem (legal elements, ≤ 15 CSRCs, block ≤ 65535 words, …), or Marshal
+    refuses it -/
+def finalWf (s : Start) (ops : List Op) : Bool :=
+  match finalHeader s ops with
+  | none => false
+  | some h => C01.wfH h || (hdrMarshal h).isErr
+
+/-! ### the abstraction used by the refinement theorems -/
+
+def toPair (e : Ext) : UInt8 × Bytes := (e.id, e.payload)
+
+/-- what the read accessors can see of a header, as a map -/
+def view (h : Header) : Map := if h.extension then h.exts.map toPair else []
+
+/-- the extension part of a header as a state of Spec.OrderedMap -/
+def abs (h : Header) : Spec.OrderedMap.State :=
+  { enabled := h.extension, profile := h.extProfile, items := h.exts.map toPair }
+
+/-- `Inv`: every element is one that SetExtension accepts for the header's profile; a legacy
+    block has at most one element (id 0); no elements while X is off -/
+def legal (h : Header) : Bool :=
+  if !h.extension then h.exts.isEmpty
+  else if h.extProfile == profileOneByte || h.extProfile == profileTwoByte then
+    h.exts.all fun e => (validateExt h.extProfile e.id e.payload.length).isNone
+  else match h.exts with
+    | [] => true
+    | [e] => e.id == 0
+    | _ => false
+
+/-- `Inv` with distinct ids (headers that did not come from the wire) -/
+def legalD (h : Header) : Bool := legal h && (h.exts.map (·.id)).Nodup
+
 end Rtp.Pred.C05
